@@ -194,8 +194,11 @@ PRESERVE = {"copy", "to", "set_label", "generate_explainable_object_with_logical
 
 
 class Bound:
-    def __init__(self, fn):
+    def __init__(self, fn, find_method=None):
+        from ..astutil import aliases
         self.fn = fn
+        self.find_method = find_method or (lambda name: None)
+        self.alias = aliases(fn)
         self.defs = {}
         for n in ast.walk(fn):
             if isinstance(n, ast.Assign) and len(n.targets) == 1 and isinstance(n.targets[0], ast.Name):
@@ -205,7 +208,7 @@ class Bound:
     def _is_guard(self, iff):
         t = iff.test
         return isinstance(t, ast.Compare) and len(t.ops) == 1 and isinstance(t.ops[0], (ast.Gt, ast.GtE)) \
-            and norm(t.comparators[0]) == "self.fixed_nb_of_instances" \
+            and self.x(t.comparators[0]) == "self.fixed_nb_of_instances" \
             and bool(iff.body) and all(isinstance(s, ast.Raise) for s in iff.body) and self.ev(t.left, iff) == GA
 
     def guard_for(self, node):
@@ -227,11 +230,23 @@ class Bound:
             x = par
         return False
 
+    def x(self, e):
+        """normalised text with local aliases expanded"""
+        from ..astutil import substitute
+        return norm(substitute(e, self.alias))
+
     def ev(self, e, at, depth=0):
         if depth > 15:
             return "?"
         EV = lambda x: self.ev(x, at, depth + 1)
-        if isinstance(e, ast.Attribute) and norm(e) == "self.raw_nb_of_instances":
+        if isinstance(e, ast.Name) and e.id in self.alias:
+            return self.ev(self.alias[e.id], at, depth + 1)
+        if isinstance(e, ast.Call):
+            from ..astutil import inline_call_expr
+            inl = inline_call_expr(e, self.find_method)
+            if inl is not None:
+                return self.ev(inl, at, depth + 1)
+        if isinstance(e, ast.Attribute) and self.x(e) == "self.raw_nb_of_instances":
             return GE
         if isinstance(e, ast.Attribute) and e.attr in ("value", "magnitude", "values"):
             return EV(e.value)
@@ -258,7 +273,7 @@ class Bound:
                     return "BAD"
                 if norm(f) in ("np.full",) and len(e.args) >= 2:
                     fill = e.args[1]
-                    if "self.fixed_nb_of_instances" in norm(fill):
+                    if "self.fixed_nb_of_instances" in self.x(fill):
                         return GE if self.guard_for(e) else "UNGUARDED"
                     return "?"
                 if norm(f) in ("pd.DataFrame", "pint_pandas.PintArray"):
@@ -275,7 +290,7 @@ class Bound:
             # <scalar >= every hour> * np.ones(len(raw))
             l, r = e.left, e.right
             for a, b in ((l, r), (r, l)):
-                if norm(b).startswith("np.ones(len(self.raw_nb_of_instances))") and EV(a) == GA:
+                if self.x(b).startswith("np.ones(len(self.raw_nb_of_instances))") and EV(a) == GA:
                     return GE
             return "?"
         return "?"
@@ -310,7 +325,8 @@ def r_bound(E):
                (SB, "ServerBase.on_premise_update_nb_of_instances"), (ST, "Storage.update_nb_of_instances")]
     for suffix, q in targets:
         rel, fn = pm.find_function(suffix, q)
-        B = Bound(fn)
+        cname = q.split(".")[0]
+        B = Bound(fn, lambda name, _c=cname: pm.find_method(_c, name)[1])
         writes = [n for n in ast.walk(fn) if isinstance(n, ast.Assign) and norm(n.targets[0]) == "self.nb_of_instances"]
         if not writes:
             res.undecided.append(f"{q}: no write of self.nb_of_instances")
@@ -782,6 +798,10 @@ def r_idflow(E):
 
 
 # ---------------------------------------------------------------------------------------------- R-THREAD
+def _exits(body):
+    return bool(body) and isinstance(body[-1], (ast.Continue, ast.Break, ast.Return, ast.Raise))
+
+
 def _flow(fn):
     """name -> parameters it derives from, data and control (assignments under a test depend on the test)"""
     params = {a.arg for a in fn.args.args}
@@ -796,6 +816,13 @@ def _flow(fn):
     for _ in range(4):
         def walk(stmts, ctl):
             for s in stmts:
+                if isinstance(s, ast.If) and (_exits(s.body) or _exits(s.orelse)):
+                    # `if test: continue` makes what follows in the block depend on the test as well
+                    c2 = ctl | names(s.test)
+                    walk(s.body, c2)
+                    walk(s.orelse, c2)
+                    ctl = c2
+                    continue
                 if isinstance(s, (ast.Assign, ast.AugAssign)):
                     src = names(s.value) | ctl
                     tg = s.targets if isinstance(s, ast.Assign) else [s.target]
@@ -890,9 +917,10 @@ def r_thread(E):
                             if isinstance(x, ast.Name) and x.id in ldep:
                                 src |= ldep[x.id]
                         ldep[a.targets[0].id] = ldep.get(a.targets[0].id, set()) | src
-            for iff in [n for n in ast.walk(L) if isinstance(n, ast.If) and any(
-                    isinstance(a, ast.Assign) and isinstance(a.targets[0], ast.Subscript) and norm(a.targets[0].slice) == idx
-                    for a in ast.walk(n))]:
+            guards = [n for n in ast.walk(L) if isinstance(n, ast.If) and (any(
+                isinstance(a, ast.Assign) and isinstance(a.targets[0], ast.Subscript) and norm(a.targets[0].slice) == idx
+                for a in ast.walk(n)) or _exits(n.body))]
+            for iff in guards:
                 for x in ast.walk(iff.test):
                     if isinstance(x, ast.Name) and x.id in ldep and x.id not in (idx, ts):
                         res.instances += 1
